@@ -1,4 +1,5 @@
 """Merged program model over the extracted facts (functions, classes, globals)."""
+import json
 import os
 import pickle
 import re
@@ -28,6 +29,24 @@ def plain(q):
             out.append(c)
         i += 1
     return "".join(out)
+
+
+_KNOWN_CONSTANTS = None
+
+
+def _new_constant(fn, n):
+    """Is the folded constant behind ref node n absent from the reference tree (analysis/known_constants.json)?  Without the table nothing is new."""
+    global _KNOWN_CONSTANTS
+    if _KNOWN_CONSTANTS is None:
+        try:
+            with open(os.path.join(os.path.dirname(os.path.abspath(__file__)), "known_constants.json")) as fh:
+                _KNOWN_CONSTANTS = set(json.load(fh))
+        except (OSError, ValueError):
+            _KNOWN_CONSTANTS = False
+    if _KNOWN_CONSTANTS is False:
+        return False
+    key = ("%s|%s" % (fn.pq, n["name"])) if n.get("dk") == "local" else (n.get("qname") or n["name"])
+    return key not in _KNOWN_CONSTANTS and not key.startswith("std::")
 
 
 class Fn:
@@ -190,6 +209,10 @@ class Fn:
                 r = ref_cb(n)
                 if r is not None:
                     return r
+            if "cval" in n and n["dk"] in ("global", "static_local", "local") and _new_constant(self, n):
+                # a named integral constant that the reference tree does not have (`constexpr char kSep = '/'`, `constexpr int kMask =
+                # 0xFFF`): rendered by its value, like the literal it stands for
+                return str(n["cval"])
             if n["dk"] in ("global", "enumconst", "func", "static_local"):
                 return n.get("qname", n["name"])
             if n["name"] in self.dup_names:
